@@ -1,7 +1,9 @@
+import Driver.Drv.Ban
 import Driver.Drv.Lru
 namespace Driver
 
 def drivers : List (String × CaseFn) := [
+  ("ban", Driver.Drv.Ban.runCase),
   ("lru", Driver.Drv.Lru.runCase)]
 
 end Driver
